@@ -65,7 +65,10 @@ def locus_of(b, case):
     g = b["g"]
     fam = "pretty" + ("/align" if g.endswith("atrue") else "") if g.startswith("pretty") else "oj"
     if kind == "invalid-json":
-        return "%s %s" % (jsonfam.locus_str(loc), fam)
+        # loc[3:] is empty when the text is valid and denotes the tree once trailing commas are removed (the precise
+        # reading of the known alignMap defect); otherwise it names what else is wrong (never known)
+        extra = "".join(" " + str(x) if str(x).startswith("+") else "/" + str(x) for x in loc[3:]).replace("+/", "+")
+        return "%s %s%s" % (jsonfam.locus_str(loc), fam, extra)
     if kind == "wrong-value":
         o = case["o"]
         tag = "/".join(str(x) for x in loc)
@@ -141,6 +144,25 @@ def shapes(ctx):
     return p
 
 
+def tables(ctx):
+    """TLC-enumerated table shapes (rows x keys, each key present or absent per row) for the aligned layout of pretty."""
+    r = ctx.tlc("JsonWriterTableGen", "JsonWriterTableGen_quick.cfg" if ctx.quick else "JsonWriterTableGen_full.cfg", workers=1, timeout=600)
+    if r.error or r.violated:
+        raise Infra("table generation failed:\n" + r.out[-2000:])
+    seen, out = set(), []
+    for s in r.printed("TB"):
+        k = json.dumps(s, sort_keys=True)
+        if k not in seen:
+            seen.add(k)
+            out.append(s)
+    if len(out) < 100:
+        raise Infra("table generation produced only %d shapes" % len(out))
+    p = os.path.join(ctx.scratch, "tables.ndjson")
+    verif.write_ndjson(p, out)
+    ctx.cov["model_table_shapes"] = len(out)
+    return p
+
+
 def main(ctx):
     # (a) design check of the writer machine + non-vacuity of Safe
     ctx.design("JsonWriter", "JsonWriter_quick.cfg" if ctx.quick else "JsonWriter_full.cfg", workers=4 if ctx.quick else 8,
@@ -148,10 +170,11 @@ def main(ctx):
     ctx.design("JsonWriter", "JsonWriter_bad.cfg", expect_violation="Safe", workers=2, count=False)
     # (b) cases
     sp = shapes(ctx)
+    tp = tables(ctx)
     wb = ctx.build("writers")
     cases = os.path.join(ctx.scratch, "cases.ndjson")
     with open(cases, "wb") as f:
-        ctx.run([wb, "gen", "-shapes", sp, "-tier", ctx.tier, "-reps", "4" if ctx.quick else "8"], stdout=f)
+        ctx.run([wb, "gen", "-shapes", sp, "-tables", tp, "-tier", ctx.tier, "-reps", "4" if ctx.quick else "8"], stdout=f)
     # (c) run and judge
     recs = judge(ctx, cases)
     for r in recs:
